@@ -352,6 +352,6 @@ def bounded(tier, seed):
              "cases": res["cases"], "failures": res["failures"]}]
 
 
-TRUSTED = ["GridBase.__init__ (axes bookkeeping) replaced by a no-op in the symbolic runs", "JSON maps tuples to lists and is the identity on finite floats, ints, bools, strings"]
+TRUSTED = ["GridBase.__init__ (axes bookkeeping) replaced by a no-op in the symbolic runs", "JSON maps tuples to lists and is the identity on finite floats, ints, bools, strings, None (json.dumps / loads modelled as an injective encoding and its inverse)", "the class registry FieldBase._subclasses = {class name: class} (filled by __init_subclass__)", "field constructors (DataFieldBase.__init__, FieldCollection.__init__) as recording stubs in the attribute round-trip units: what they do with label / dtype / grid is C15 and the bounded check"]
 ASSUMPTIONS = ["equal bounds/shape/periodicity give equal coordinates and cell volumes (C12 discretize_interval, C05 cell volumes)"]
-NOT_COVERED = ["UnitGrid constructor, CartesianGrid with bounds given as upper limits only (np.squeeze branch), copy/deepcopy/pickle, field attributes (un)serialisation, storage field_attributes: bounded native check only"]
+NOT_COVERED = ["UnitGrid constructor, CartesianGrid with bounds given as upper limits only (np.squeeze branch), copy/deepcopy/pickle of grids, the data leg of FieldCollection.from_state (assigning the flat array), storage field_attributes: bounded native check only; binary floating point (e.g. bounds recomputed from cell centres drift by an ulp): outside the real-number model, bounded native check with non-dyadic cell sizes"]
